@@ -22,7 +22,31 @@ pub fn draws() -> u64 {
     DRAWS.with(|d| d.get())
 }
 
+/// Selftest knob: VERIF_HASHSEED=os serves real OS entropy instead (used once to show that event-log
+/// digests then differ between processes, i.e. that the seam is what makes runs repeatable).
+fn os_entropy() -> bool {
+    use std::sync::atomic::{AtomicU8, Ordering};
+    static MODE: AtomicU8 = AtomicU8::new(0);
+    match MODE.load(Ordering::Relaxed) {
+        1 => false,
+        2 => true,
+        _ => {
+            let on = std::env::var_os("VERIF_HASHSEED").map(|v| v == "os").unwrap_or(false);
+            MODE.store(if on { 2 } else { 1 }, Ordering::Relaxed);
+            on
+        }
+    }
+}
+
 pub fn fill(buf: &mut [u8]) {
+    if os_entropy() {
+        use std::io::Read;
+        if let Ok(mut f) = std::fs::File::open("/dev/urandom") {
+            if f.read_exact(buf).is_ok() {
+                return;
+            }
+        }
+    }
     // try_with: getrandom may be called during thread teardown.
     let mut st = STREAM.try_with(|s| s.get()).unwrap_or(0x0DDB_1A5E_5BAD_5EED);
     for chunk in buf.chunks_mut(8) {
